@@ -21,13 +21,18 @@ L23 == {Dense(2, 3, a) : a \in Sub([1..6 -> E], 6)} \cup {Zero(2, 3)}
 L32 == {Dense(3, 2, a) : a \in Sub([1..6 -> E], 6)} \cup {Zero(3, 2)}
 L33 == {Dense(3, 3, a) : a \in Sub([1..9 -> {TInt(0), TInt(1), TInt(2)}], 8)} \cup {Ident(3), Zero(3, 3), Diag(<<TInt(1), TInt(2), x>>),
         Dense(3, 3, <<TInt(1), TInt(2), TInt(3), TInt(4), TInt(1), TInt(2), TInt(5), TInt(4), TInt(1)>>)}       \* a Toeplitz matrix
-Leaves == L22 \cup L23 \cup L32 \cup L33
+\* wide and tall shapes (diagonals that start outside the shorter side)
+L24 == {Dense(2, 4, a) : a \in Sub([1..8 -> {TInt(0), TInt(1), TInt(2)}], 6)} \cup {Dense(2, 4, <<TInt(1), TInt(2), TInt(3), TInt(4), TInt(5), TInt(1), TInt(2), TInt(3)>>), Zero(2, 4)}
+L42 == {Dense(4, 2, a) : a \in Sub([1..8 -> {TInt(0), TInt(1), TInt(2)}], 6)} \cup {Dense(4, 2, <<TInt(1), TInt(2), TInt(3), TInt(1), TInt(4), TInt(3), TInt(5), TInt(4)>>), Dense(3, 2, <<TInt(1), TInt(0), TInt(2), TInt(1), TInt(4), TInt(3)>>),
+        Dense(2, 3, <<TInt(1), TInt(2), TInt(3), TInt(4), TInt(1), TInt(9)>>), Dense(1, 3, <<TInt(1), TInt(2), x>>), Dense(3, 1, <<TInt(1), TInt(2), x>>), Dense(1, 1, <<x>>)}
+Leaves == L22 \cup L23 \cup L32 \cup L33 \cup L24 \cup L42
 Un(m) == {Op("transpose", <<m>>), Op("conj", <<m>>)}
 Depth1 == UNION {Un(m) : m \in Sub(Leaves, 30)}
           \cup {Op(k, <<a, b>>) : k \in {"madd", "hadamard"}, a, b \in Sub(L22, 14)} \cup {Op(k, <<a, b>>) : k \in {"madd", "hadamard"}, a, b \in Sub(L23, 5)}
           \cup {Op("mmul", <<a, b>>) : a, b \in Sub(L22, 14)} \cup {Op("mmul", <<a, b>>) : a \in Sub(L23, 5), b \in Sub(L32, 5)} \cup {Op("mmul", <<a, b>>) : a \in Sub(L32, 4), b \in Sub(L23, 4)}
           \cup {Op("mmul", <<s, a>>) : s \in {TInt(2), TInt(0), x, TRat(-1, 2)}, a \in Sub(L22, 8)} \cup {Op("mmul", <<a, b>>) : a \in Sub(L33, 5), b \in Sub(L33, 5)}
           \cup {Op(k, <<a, b, c>>) : k \in {"madd", "mmul", "hadamard"}, a, b, c \in Sub(L22, 5)}
+          \cup {Op(k, <<a, b>>) : k \in {"madd", "hadamard"}, a, b \in Sub(L24, 4)} \cup {Op("mmul", <<a, b>>) : a \in Sub(L24, 4), b \in Sub(L42, 4)}
 Depth2 == {Op(k, <<a, b>>) : k \in {"madd", "mmul", "hadamard"}, a \in Sub(Depth1, 14), b \in Sub(L22, 6)}
           \cup UNION {Un(m) : m \in Sub(Depth1, 40)}
           \cup {Op("madd", <<Op("mmul", <<a, b>>), Op("transpose", <<Op("mmul", <<a, b>>)>>)>>) : a, b \in Sub(L22, 5)}
